@@ -256,7 +256,20 @@ def run(repo):
                 writers += 1
                 from .common import expand_locals
                 a = expand_locals(fi.node, n.args[0])
-                ok = (isinstance(a, ast.Call) and call_name(a) == 'list') or isinstance(a, (ast.List, ast.ListComp))
+
+                def plain_list(e):
+                    return (isinstance(e, ast.Call) and call_name(e) in ('list', 'sorted')) or \
+                        isinstance(e, (ast.List, ast.ListComp))
+                ok = plain_list(a)
+                if not ok and isinstance(a, ast.Name):
+                    # a local assigned once per case: every definition must be a plain list
+                    dvals = [x.value for x in walk_no_nested(fi.node) if isinstance(x, ast.Assign) and
+                             any(isinstance(t_, ast.Name) and t_.id == a.id for t_ in x.targets)]
+                    others = [x for x in walk_no_nested(fi.node)
+                              if isinstance(x, (ast.AugAssign, ast.For, ast.comprehension)) and
+                              any(isinstance(y, ast.Name) and y.id == a.id and isinstance(y.ctx, ast.Store)
+                                  for y in ast.walk(x.target))]
+                    ok = bool(dvals) and not others and all(plain_list(expand_locals(fi.node, v)) for v in dvals)
                 res.functions.add(fi.fq)
                 res.inst({'function': fi.fq, 'event_members_stored_as': ntext(a)[:40], 'plain_list': ok}, ok)
                 if not ok:
@@ -280,6 +293,23 @@ def run(repo):
         from .common import expand_locals
         ok = any(isinstance(x, ast.Subscript) and ntext(x) == tgt and x is not st.targets[0]
                  for x in ast.walk(expand_locals(rv.node, st.value)))
+        if not ok:
+            # for s, entry in enumerate(self.var_ev_list): entry is self.var_ev_list[s] as long as the loop body
+            # has not stored to it before
+            for lp_ in walk_no_nested(rv.node):
+                if isinstance(lp_, ast.For) and isinstance(lp_.iter, ast.Call) and call_name(lp_.iter) == 'enumerate' \
+                        and lp_.iter.args and isinstance(lp_.target, ast.Tuple) and len(lp_.target.elts) == 2 and \
+                        all(isinstance(e, ast.Name) for e in lp_.target.elts) and \
+                        any(st is x for x in ast.walk(lp_)):
+                    idx_, ent_ = lp_.target.elts[0].id, lp_.target.elts[1].id
+                    if '%s[%s]' % (ntext(lp_.iter.args[0]), idx_) == tgt and \
+                            any(isinstance(x, ast.Name) and x.id == ent_ for x in ast.walk(st.value)):
+                        earlier = [y for y in ast.walk(lp_) if isinstance(y, ast.Assign) and y is not st and
+                                   any(ntext(t_).startswith(ntext(lp_.iter.args[0])) for t_ in y.targets)]
+                        rebound = [y for y in ast.walk(lp_) if isinstance(y, ast.Name) and y.id in (idx_, ent_) and
+                                   isinstance(y.ctx, ast.Store) and not any(y is z for z in ast.walk(lp_.target))]
+                        if not earlier and not rebound:
+                            ok = True
         res.inst({'rule_var store': ntext(st)[:70], 'wraps_own_entry': ok}, ok)
         if not ok:
             res.fail(Finding(RULE, rv.fq, 'store ' + tgt,
@@ -360,9 +390,10 @@ def _is_partition(a, fi, assigns, loops, depth=0):
         raise AnalysisError('%s: starred argument `%s` of event_dict/comb_set not followed' % (fi.fq, t[:30]))
     if isinstance(a, ast.IfExp):
         return _is_partition(a.body, fi, assigns, loops, depth + 1) and _is_partition(a.orelse, fi, assigns, loops, depth + 1)
-    if isinstance(a, ast.List) and len(a.elts) == 1 and 'range' in t:
+    if isinstance(a, ast.List) and len(a.elts) == 1:
         from .common import expand_locals
-        if 'num_scen' in ntext(expand_locals(fi.node, a)):
+        xa = ntext(expand_locals(fi.node, a))
+        if 'range' in xa and 'num_scen' in xa:
             return True          # [list(range(num_scen))]: the trivial partition
     if isinstance(a, ast.Name) and a.id not in assigns:
         # e.g. a comprehension / generator variable: not followed
